@@ -31,6 +31,8 @@ ASSUMPTIONS = [
     'results, integer results beyond 2**53, datetime shifts by a fraction of a millisecond or outside year 1..9999, '
     'sub-millisecond datetime differences, the text of negative zero',
     'process time zone is UTC (fixed by the runner); a date and the datetime of its midnight are the same value',
+    'in an UNSPECIFIED cell the value is not compared but must still be a BareScript value (no host object such as complex)',
+    'datetime text: milliseconds truncated; for 0 < microsecond < 1000 an all-zero millisecond field may be printed (.000) or omitted',
     'the alias table is written by hand from the library documentation (spreadsheet name -> library function with that '
     'documented meaning); now/today/rand are only called and type-checked',
     'a script function called through evaluate_expression needs options["statementCount"]; the harness provides it',
